@@ -286,18 +286,21 @@ def mergedNames (objs : List (Obj α)) : List String :=
 
 /-- value of merged descriptor `name` for row `r` of object `o`: its rdm descriptor, else its
     object-level descriptor, else `None` (the object has no such descriptor) -/
-def mergedVal (o : Obj α) (name : String) (r : Nat) : Option Lbl :=
+def mergedVal (o : Obj α) (name : String) (r : Nat) : Lbl :=
   match o.rdesc.get name with
-  | some col => some (col.getD r Lbl.none)
-  | none => some ((o.odesc.lookup name).getD Lbl.none)
+  | some col => col.getD r Lbl.none
+  | none => (o.odesc.lookup name).getD Lbl.none
 
+/-- the merged column of descriptor `name`: object after object, row after row -/
+def mergedCol (objs : List (Obj α)) (name : String) : List Lbl :=
+  objs.flatMap (fun o => (List.range o.nRdm).map (mergedVal o name))
+
+/-- `_merged_rdm_descriptors` (never fails since missing descriptors are filled with `None`;
+    kept in `Option` for the callers) -/
 def mergedRDesc (objs : List (Obj α)) : Option Desc :=
   let total := (objs.map (·.nRdm)).sum
-  (mergedNames objs).mapM (fun name =>
-    if name = "index" then some (name, rangeLbl total)
-    else do
-      let cols ← objs.mapM (fun o => (List.range o.nRdm).mapM (fun r => mergedVal o name r))
-      pure (name, cols.flatten))
+  some ((mergedNames objs).map (fun name =>
+    (name, if name = "index" then rangeLbl total else mergedCol objs name)))
 
 def hasDup (l : List Lbl) : Bool := (uniq l).length != l.length
 
@@ -313,23 +316,32 @@ def Obj.alignTo (o : Obj α) (t : String) (auth : List Lbl) : Option (Obj α) :=
   then o.reorder (auth.map (fun x => other.idxOf x))
   else Option.none
 
-/-- the later arguments of `concat`, each brought into the pattern order of the first -/
-def alignAll (first : Obj α) (rest : List (Obj α)) : Option (List (Obj α)) :=
-  match concatTarget first with
+/-- the aligning descriptor in effect: the explicit `target_pdesc` (it must be a pattern
+    descriptor of the first object, else `concat` raises) or the automatic choice -/
+def effTarget (first : Obj α) (tgt : Option String) : Option (Option String) :=
+  match tgt with
+  | some t => if first.pdesc.has t then some (some t) else Option.none
+  | none => some (concatTarget first)
+
+/-- the later arguments of `concat`, each brought into the pattern order of the first along
+    the aligning descriptor `ot` (`none`: positional) -/
+def alignAll (first : Obj α) (rest : List (Obj α)) (ot : Option String) : Option (List (Obj α)) :=
+  match ot with
   | some t => do
       let auth ← first.pdesc.get t
       rest.mapM (fun r => r.alignTo t auth)
   | none => some rest
 
 /-- `concat(objs)`: result and the (possibly re-aligned) arguments -/
-def concatObjs (objs : List (Obj α)) : Option (Obj α × List (Obj α)) :=
+def concatObjs (objs : List (Obj α)) (tgt : Option String) : Option (Obj α × List (Obj α)) :=
   match objs with
   | [] => Option.none
   | first :: rest => do
     let od := mergedODesc objs
     let rd ← mergedRDesc objs
+    let ot ← effTarget first tgt
     if !(rest.all (fun r => r.nCond == first.nCond)) then Option.none else
-    let aligned ← alignAll first rest
+    let aligned ← alignAll first rest ot
     let res ← mk2d (first.vecs ++ aligned.flatMap (·.vecs)) od
       (rd.filter (fun kv => kv.1 != "index") ++ rd.filter (fun kv => kv.1 == "index")) first.pdesc
     pure (res, first :: aligned)
@@ -348,9 +360,12 @@ def fromPartialsWith (objs : List (Obj α)) (labs : List (List Lbl)) (all : List
   match mergedRDesc objs with
   | Option.none => Option.none
   | some rd =>
-    mk2d ((objs.zip labs).flatMap (fun ol =>
-        ol.1.vecs.map (scatterVec ol.1.nCond all.length (ol.2.map (fun x => all.idxOf x)))))
-      (mergedODesc objs) rd [(d, all)]
+    let vecs := (objs.zip labs).flatMap (fun ol =>
+        ol.1.vecs.map (scatterVec ol.1.nCond all.length (ol.2.map (fun x => all.idxOf x))))
+    -- every row is written into a buffer of `vector_len` entries (generated leaf)
+    if vecs.all (fun w => w.length == Rsa.Gen.C10.fpVectorLen all.length) then
+      mk2d vecs (mergedODesc objs) rd [(d, all)]
+    else Option.none
 
 /-- `from_partials(objs, all_patterns, descriptor)` -/
 def fromPartials (objs : List (Obj α)) (allP : Option (List Lbl)) (d : String) :
@@ -393,7 +408,7 @@ inductive Op where
   | sortAlpha (src : Nat) (by_ : String) (re : Bool)
   | sortList (src : Nat) (by_ : String) (method : List Lbl) (re : Bool)
   | append (src other : Nat)
-  | concat (srcs : List Nat)
+  | concat (srcs : List Nat) (tgt : Option String)
   | copy (src : Nat)
   | fromPartials (srcs : List Nat) (allP : Option (List Lbl)) (d : String)
   | permute (src : Nat) (p : List Nat)
@@ -430,9 +445,9 @@ def stepE (cm : Bool) (s : Store α) : Op → Option (Store α)
   | .sortAlpha i b re => do let o ← s[i]?; replaceAt s i (o.sortAlpha b re)
   | .sortList i b m re => do let o ← s[i]?; replaceAt s i (o.sortList b m re)
   | .append i j => do let o ← s[i]?; let r ← s[j]?; replaceAt s i (o.append r)
-  | .concat is => do
+  | .concat is tgt => do
       let objs ← is.mapM (fun i => s[i]?)
-      let (res, args) ← concatObjs objs
+      let (res, args) ← concatObjs objs tgt
       pure ((if cm then writeBack s is args else s) ++ [res])
   | .copy i => do let o ← s[i]?; bindNew s o.copy
   | .fromPartials is allP d => do
@@ -520,25 +535,34 @@ def scatterCp (bigN : Nat) (pidx : List Nat) (cp : List (Option Nat)) : List (Op
   (List.range bigN).map (fun a => (pidx.idxOf? a).bind (fun x => cp.getD x Option.none))
 
 /-- the orders `concat` applies to its later arguments -/
-def alignOrders (first : Obj α) (rest : List (Obj α)) : List (Option (List Nat)) :=
-  match concatTarget first with
+def alignOrders (first : Obj α) (rest : List (Obj α)) (ot : Option String) :
+    List (Option (List Nat)) :=
+  match ot with
   | some t => rest.map (fun r => alignOrder r t ((first.pdesc.get t).getD []))
   | none => rest.map (fun _ => Option.none)
 
 /-- ghosts of the later arguments of `concat` after re-alignment -/
-def galignAll (first : Obj α) (rest : List (Obj α)) (grest : List GObj) : List GObj :=
-  (grest.zip (alignOrders first rest)).map (fun go => go.1.alignTo go.2)
+def galignAll (first : Obj α) (rest : List (Obj α)) (grest : List GObj) (ot : Option String) :
+    List GObj :=
+  (grest.zip (alignOrders first rest ot)).map (fun go => go.1.alignTo go.2)
+
+/-- rdm-descriptor keys tracked in every one of several objects -/
+def commonKeys : List GObj → List String
+  | [] => []
+  | g :: gs => g.rk.filter (fun k => gs.all (fun g' => g'.rk.contains k))
 
 /-- ghost of the result of `concat` -/
 def gconcat (gfirst : GObj) (aligned : List GObj) : GObj :=
-  { rows := gfirst.rows ++ aligned.flatMap (fun a => a.rows.map GRow.unaligned), pp := gfirst.pp }
+  { rows := gfirst.rows ++ aligned.flatMap (fun a => a.rows.map GRow.unaligned), pp := gfirst.pp,
+    rk := commonKeys (gfirst :: aligned) }
 
 /-- ghost of the result of `from_partials` -/
 def gfromPartials (gs : List GObj) (labs : List (List Lbl)) (all : List Lbl) : GObj :=
   { rows := (gs.zip labs).flatMap (fun gl =>
       gl.1.rows.map (fun r =>
         { r with cp := scatterCp all.length (gl.2.map (fun x => all.idxOf x)) r.cp, al := false })),
-    pp := List.replicate all.length Option.none }
+    pp := List.replicate all.length Option.none,
+    rk := commonKeys gs }
 
 /-- ghost of `append` -/
 def gappend (go gr : GObj) : GObj :=
@@ -574,12 +598,12 @@ def gstepOk (cm : Bool) (s : Store α) (g : List GObj) : Op → Option (List GOb
   | .append i j => do
       let go ← g[i]?; let gr ← g[j]?
       pure (g.set i (gappend go gr))
-  | .concat is => do
+  | .concat is tgt => do
       let objs ← is.mapM (fun i => s[i]?)
       let gs ← is.mapM (fun i => g[i]?)
       match objs, gs with
       | first :: rest, gfirst :: grest =>
-        let aligned := galignAll first rest grest
+        let aligned := galignAll first rest grest ((effTarget first tgt).getD Option.none)
         pure ((if cm then gwriteBack g is (gfirst :: aligned) else g) ++ [gconcat gfirst aligned])
       | _, _ => Option.none
   | .copy i => do let go ← g[i]?; pure (g ++ [go])
